@@ -94,7 +94,7 @@ MCInit == \E m \in Modes, e \in Echoes, p \in Plans, pr \in Pres :
 A_Handshake  == /\ \E k \in Keys \cup {NoKey}, v \in Spellings :
                       /\ v # "canon" => k \in {ScriptKey, NoKey}
                       \* connections that only shake hands do not vary with the split class or the echo option
-                      /\ (v # "canon" \/ k \notin {ScriptKey, NoKey}) => (plan = "whole" /\ ~echo)
+                      /\ (v # "canon" \/ k \notin {ScriptKey, NoKey}) => (plan = "whole" /\ (~echo \/ FALSE \notin Echoes))
                       /\ Cli_Handshake(k, v)
                 /\ UNCHANGED plan
 A_StartFrame == /\ key = ScriptKey /\ hsv = "canon" /\ Len(wire) < MaxFrames
